@@ -933,12 +933,18 @@ def diagnose(case, result):
             if cause:
                 sub, pyv, sqlv = cause
                 op = opname(sub)
-                kind = ("evaluator", op, _cls(pyv), _cls(sqlv))
+                pc, sc = _cls(pyv), _cls(sqlv)
+                kind = ("evaluator", op, pc, sc) if op not in ("par", "pard") else ("evaluator", op)
                 if kind in seenk:
                     continue
                 seenk.add(kind)
-                w = witness(op, _cls(pyv), _cls(sqlv))
-                sig = "evaluator %s: python gives %s where SQL gives %s; minimal: %s" % (op, _cls(pyv), _cls(sqlv), w or "(no column-operand witness)")
+                if op in ("par", "pard"):
+                    # a bound parameter leaf: one root cause whatever the value's type
+                    sig = "evaluator bindparam: value passed to execute() is ignored, python uses %s; minimal: %s" % (
+                        "None" if op == "par" else "the bindparam() default", ":param[2]" if op == "par" else ":param[default 0, passed 2]")
+                else:
+                    w = witness(op, pc, sc)
+                    sig = "evaluator %s: python gives %s where SQL gives %s; minimal: %s" % (op, pc, sc, w or "(no column-operand witness)")
                 out.append((kind, sig, "%s\n  %s\n  root cause sub-tree %s on row id=%s %r: python %s, database %s" % (desc, detail, show(sub), pk, BASE.get(pk), _fmt(pyv), _fmt(sqlv))))
             else:
                 marker = "SET source reads a column assigned by the same statement" if _assigned_read(setc) and sym == "stale-attr" else ""
